@@ -227,7 +227,8 @@ impl Prop for C06 {
                 let nm = 1 + rng.usize(4);
                 let ns = rng.usize(4);
                 let members: Option<Vec<Member>> = (0..nm).map(|_| Member::new(gen_member(rng))).collect();
-                let settle: Option<Option<Vec<Member>>> = if ns == 0 { Some(None) } else { (0..ns).map(|_| Member::new(gen_member(rng))).collect::<Option<Vec<_>>>().map(Some) };
+                // ns == 0: no settlement list at all, or an empty one (both mean "always a settlement day")
+                let settle: Option<Option<Vec<Member>>> = if ns == 0 { if rng.bool() { Some(None) } else { Some(Some(vec![])) } } else { (0..ns).map(|_| Member::new(gen_member(rng))).collect::<Option<Vec<_>>>().map(Some) };
                 match (members, settle) {
                     (Some(m), Some(s)) => {
                         ctx.crumb("random union");
